@@ -546,13 +546,63 @@ def shiftif(r):
         x = r.choice(['-', '-', '', '.', '+', '-.'])
         iff = '[' + x + fw * b + '[-]]'
         pre = r.choice(['-', '-', '-' + fw + '+' + bw, '.-', '-' + fw * (a + b + 1) + '+' + bw * (a + b + 1)])
-        s += '[' + pre + fw * a + iff + bw * (a + b) + ']'
+        # moving back by a + b makes the loop stationary when the `if` is taken; moving back by a only makes
+        # it stationary when the `if` is skipped — then the join point of the `if` is the loop's own closing branch
+        s += '[' + pre + fw * a + iff + bw * (a + b if r.below(2) else a) + ']'
         s += r.choice(['', '>', '<', '.', '+'])
     s += r.choice(['.>.>.>.', '.<.<.', '.>.<<.>>>.', '+.>+.>+.'])
     return s
 
 
-GENS = {"scanclear": scanclear, "stridescan": stridescan, "emptyspin": emptyspin, "deepnest": deepnest, "mulcounter": mulcounter, "tailloop": tailloop, "loopio": loopio, "shiftif": shiftif, "ifnest": ifnest, "uniform": uniform, "nestuse": nestuse, "longrun": longrun, "iopressure": iopressure, "squares": squares, "macro": macro, "pressure": pressure, "affine": affine, "bigconst": bigconst,
+def framealias(r):
+    """a store to a static offset k, then something that moves the tape pointer by a data-dependent amount (a
+    scan `[>]`, a moving `if` such as `[+>[-]]`), then a blind overwrite (`,` or `[-]+c`) of the *same static
+    offset* k — now a different cell — and finally the old cell is observed (printed, or steering a scan):
+    offsets before and after the move name different cells, so nothing after it may kill a store before it"""
+    n = r.randint(3, 5)
+    s = ''.join(r.choice([',', ',', '+', '++', '']) + '>' for _ in range(n)) + '<' * n
+    for _ in range(r.randint(1, 2)):
+        k = r.randint(0, 2)
+        fw, bw = ('>', '<') if r.below(4) else ('<', '>')
+        store = r.choice(['+', '++', '+++', '[-]+++', '-', '[-]++'])
+        kind = r.below(4)
+        if kind == 0:        # store before a scan
+            s += fw * k + store + bw * k + r.choice(['[' + fw + ']', '[' + fw * 2 + ']', '[' + fw + ']' + fw])
+        elif kind == 1:      # the store is the last thing a moving `if` does to offset k (k = 0 in the old frame)
+            k = 0
+            s += r.choice([',', '', '+']) + '[' + store + fw * r.randint(1, 2) + '[-]]'
+        elif kind == 2:      # store, then a moving `if` on another cell
+            s += fw * k + store + bw * k + fw * (k + 1) + '[' + r.choice(['-', '+', '.']) + fw + '[-]]' + bw * (k + 1)
+        else:                # store inside a loop that is left by a pointer move
+            s += '[' + fw * k + store + bw * k + fw + ']'
+        s += fw * k + r.choice([',', ',', '[-]+', '[-]++', '[-]']) + bw * k      # the blind overwrite of offset k in the new frame
+        s += r.choice([bw + '.', bw * 2 + '.' + fw + '.', '.' + bw + '.' + bw + '.', fw + '.' + bw * 2 + '.', bw + '[' + bw + ']' + fw + '.'])
+    s += r.choice(['.>.>.', '<.<.<.', '<<.>.>.>.>.', '>.<<.'])
+    return s
+
+
+def runwalk(r):
+    """nested loops whose *outer* loop is left or continued through a pointer move: run-walking loops
+    `[[.-]>]` (the inner loop empties a cell, the outer steps to the next one and stops at the first zero
+    cell) and counted loops whose body ends in a scan, with output after the outer loop — a budget that
+    expires inside the inner loop finds the outer condition cell zero"""
+    n = r.randint(2, 5)
+    s = ''.join(r.choice([',', ',', '+++', '++', '+']) + '>' for _ in range(n)) + '<' * n
+    kind = r.below(4)
+    inner = r.choice(['[.-]', '[-.]', '[->+<]', '[.-]', '[-]', '[.[-]]'])
+    if kind == 0:
+        s += '[' + inner + '>]'
+    elif kind == 1:
+        s += '>' * (n - 1) + '[' + inner + '<]'
+    elif kind == 2:
+        s += '>' * n + '+[-' + '<' * n + '[.>]' + '<' * r.randint(1, 3) + ']'
+    else:
+        s += '[' + r.choice(['', '.']) + '[' + inner + '>]' + r.choice(['', '<[<]>']) + ']'
+    s += r.choice(['+.', '>+.', '.+.', '<.>+.', '++.>.'])
+    return s
+
+
+GENS = {"framealias": framealias, "runwalk": runwalk, "scanclear": scanclear, "stridescan": stridescan, "emptyspin": emptyspin, "deepnest": deepnest, "mulcounter": mulcounter, "tailloop": tailloop, "loopio": loopio, "shiftif": shiftif, "ifnest": ifnest, "uniform": uniform, "nestuse": nestuse, "longrun": longrun, "iopressure": iopressure, "squares": squares, "macro": macro, "pressure": pressure, "affine": affine, "bigconst": bigconst,
         "roam": roam, "diverge": diverge}
 
 
